@@ -3,6 +3,7 @@ package engine
 import (
 	"encoding/json"
 	"fmt"
+	"os"
 	"strings"
 	"time"
 	"unicode/utf8"
@@ -397,6 +398,9 @@ func (fr *faultRun) exec() {
 	}
 	if !base.HasOut {
 		st.Rejected++
+		if d := os.Getenv("VERIF_DUMP_REJECTED"); d != "" { // debugging aid: keep the rejected baseline programs
+			os.WriteFile(fmt.Sprintf("%s/rejected-%d.pory", d, fr.run), []byte(input0), 0o644)
+		}
 		if base.Err != nil {
 			m := base.Err.Msg
 			if len(m) > 60 {
